@@ -247,9 +247,9 @@ Example C06_nonvacuous :
   exists st, zrun (init Z nat Z Z [0; 0; 0]%Z (fun _ => None)) (zhist ++ [UpdatePoses nat Z]) = XOk st /\
     NoDup (map snd (colliders _ _ _ _ st)) /\ wl_total Z nat Nat.eqb Z Z st /\
     heap _ _ _ _ st = [0; 1; 5]%Z /\
-    aabb_overlapping_colliders Z Z.leb nat Nat.eqb Z Z st (zbar 3) [] = XOk [(1, 1); (2, 2)] /\
+    aabb_overlapping_colliders Z Z.leb nat Nat.eqb Z Z st (zbar 3) [] = XOk [(2, 2); (1, 1)] /\
     aabb_overlapping_with_self Z Z.leb nat Z Z st =
-      XOk [(Some (1, 1), Some (0, 0)); (Some (0, 0), Some (1, 1))] /\
+      XOk [(Some (0, 0), Some (1, 1)); (Some (1, 1), Some (0, 0))] /\
     detect Z Z.leb nat Nat.eqb Z Z zbar znarrow st = XOk [(0, true); (1, true); (2, false)] /\
     detect_any Z Z.leb nat Nat.eqb Z Z zbar znarrow st = XOk true /\
     ~ (exists g, hits Z nat Nat.eqb Z Z znarrow st 1 g) /\ hits Z nat Nat.eqb Z Z znarrow st 0 1.
@@ -258,12 +258,13 @@ Proof.
   split; [repeat constructor; simpl; intuition discriminate|].
   split; [intros f [<-|[<-|[<-|[]]]]; eexists; reflexivity|].
   repeat (split; [reflexivity|]). split.
-  - intros (g & c & c' & w & (o & Ho & Hc) & (o' & Ho' & Hc') & Hw & Hnw & Hn).
+  - unfold hits, coll_at. simpl.
+    intros (g & c & c' & w & (o & Ho & Hc) & (o' & Ho' & Hc') & Hw & Hnw & Hn).
     simpl in Hw. inversion Hw; subst w. simpl in Ho, Ho'.
     destruct Ho as [E|[E|[E|[]]]]; inversion E; subst o. simpl in Hc. inversion Hc; subst c.
     destruct Ho' as [E'|[E'|[E'|[]]]]; inversion E'; subst; simpl in *;
       inversion Hc'; subst; try (apply Hnw; auto; fail); discriminate.
-  - exists 0%Z, 1%Z, [0]. repeat split; try reflexivity.
+  - unfold hits, coll_at. simpl. exists 0%Z, 1%Z, [0]. repeat split; try reflexivity.
     + exists 0. simpl; auto.
     + exists 1. simpl; auto.
     + simpl. intros [H|[]]; discriminate.
